@@ -70,6 +70,13 @@ def finishBlock (sc : RScan) : RScan := Id.run do
   | none => pure ()
   | some prev =>
     let stakeStable := prev.vals == cur.vals && prev.dels == cur.dels
+    -- a running lock is never shortened or erased (it can only be replaced by a later one): otherwise the selector's stake
+    -- could enter another reporter's report inside its lock period
+    for x in prev.sels do
+      if x.lockedUntil > sc.now then
+        match cur.sels.find? (·.selector == x.selector) with
+        | some y => if y.lockedUntil < x.lockedUntil then sc := rfail sc s!"lock of {x.selector} (until {x.lockedUntil}) shortened to {y.lockedUntil} at t={sc.now}"
+        | none => pure ()
     -- the cap can only be exceeded through a lowered cap or reporter creation; here the cap is constant
     for r in cur.reps do
       let n := (selectorsOf cur r.name).length
